@@ -373,6 +373,7 @@ func c18(g *Gen) {
 		os.RemoveAll(filepath.Join(root, fmt.Sprintf("t%d", i)))
 	}
 	os.RemoveAll(root)
+	c18fresh(g)
 }
 
 func c18closureCase(g *Gen, ctx *generator.Context, graph map[string][]string, cls string) {
